@@ -8,11 +8,11 @@ package smtp_downstream
 
 // ---- C09: per-recipient results of the LMTP next hop ----
 //@ func (*Downstream).moduleError
-//@   prop C09
+//@   prop C09 C01
 //@   ensures (result == nil) == (err == nil)
 // AddRcpt records the address it was given iff the next hop accepted it.
 //@ func (*delivery).AddRcpt
-//@   prop C09
+//@   prop C09 C01
 //@   requires d != nil && d.conn != nil && d.conn.cl != nil && d.u != nil
 //@   modifies d.rcpts, d.conn.rcpts, *d.conn.cl, gosmtp.SMTPError.Code, gosmtp.SMTPError.EnhancedCode
 //@   assert-call (*smtpconn.C).Rcpt : $to == rcptTo && $c == d.conn
@@ -22,7 +22,7 @@ package smtp_downstream
 // The per-recipient callback: the k-th reply of the next hop is reported under the k-th recorded address (the
 // address AddRcpt was given, not the wire form go-smtp passes in).
 //@ func (*lmtpDelivery).BodyNonAtomic$1
-//@   prop C09
+//@   prop C09 C01
 //@   requires d != nil && d.delivery != nil && sc != nil && 0 <= rcptIndx && rcptIndx < 4611686018427387904
 //@   modifies gStCnt, rcptIndx
 //@   ensures rcptIndx == old(rcptIndx) + 1
@@ -37,7 +37,7 @@ package smtp_downstream
 // BodyNonAtomic: on every path (body cannot be opened, transmission fails midway, or every reply arrives) exactly
 // one status per recorded recipient, under the recorded address.
 //@ func (*lmtpDelivery).BodyNonAtomic
-//@   prop C09
+//@   prop C09 C01
 //@   nopanic
 //@   requires d != nil && d.delivery != nil && d.conn != nil && d.u != nil && sc != nil && body != nil
 //@   modifies *
